@@ -31,6 +31,13 @@ BANDS_H = {
         8: {3: (6.6e-07, 2.2e-05), 4: (5.1e-07, 3.2e-05), 5: (5e-07, 4.6e-05), 6: (4.2e-07, 0.00015)},
     },
 }
+# well-separated sparse scenario (place = 64: one particle near the centre of each level-2 cell of {0,2}^3): the truncation error is
+# negligible, what is measured is the accuracy of the translation operators; maxima over 144 scenarios on the pinned tree x 4
+# (rotation kernel: x 100 above the rounding floor, the measured values are 1e-15 .. 5e-10)
+BANDS_SPARSE = {
+    0: {4: (4e-11, 6e-8), 6: (1e-12, 1e-11), 8: (1e-12, 1e-11), 12: (1e-12, 1e-11)},
+    1: {3: (4.6e-4, 1.4e-1), 4: (4.7e-3, 1.2e-2), 5: (7.3e-6, 2.2e-3), 6: (1.2e-5, 2.1e-5), 7: (9.3e-8, 2.7e-5), 8: (2.9e-7, 1.3e-6)},
+}
 FLOOR = {"double": (1e-13, 1e-12), "float": (2e-5, 2e-4)}       # direct sum only (heights <= 2)
 # rounding floor of the far field in the working precision (deep trees, high orders: the truncation error is below it);
 # measured on the pinned tree in float: potential <= 4.1e-6, force <= 1.6e-3 at heights 6..7, orders 7..8 (x5)
@@ -85,6 +92,9 @@ def scenarios(tier, rng):
     # target/source variant (C05: "target/source and periodic variants"): separate particle sets, targets against the sum over sources
     for H, rel, ex in [(4, 0, 0), (5, 1, 0), (4, 2, 1), (5, 3, 0)] + ([(6, 1, 1), (3, 0, 0), (6, 3, 0)] if tier != "quick" else []):
         sc.append(dict(H=H, B=rng.choice([7, 30, 10000000]), mode=rng.below(2), ex=ex, N=300, Ns=700, seed=rng.below(1000), box=boxes[(H + rel) % 3], charge=1, fam=None, rel=rel))
+    # well-separated sparse particles near level-2 cell centres: accuracy of the translation operators themselves
+    for H in ((4, 6) if tier == "quick" else (4, 5, 6, 7)):
+        sc.append(dict(H=H, B=rng.choice([1, 3, 10]), mode=rng.below(2), ex=0, N=8, seed=rng.below(1000), box=boxes[H % 3], charge=1, fam=None, place=64))
     # periodic variant (C04/C10: "numerical kernels match the explicit sum over those images"): four-step sequence with k extra
     # levels against the explicit long-double image sum over the interval the library reports
     pk = [(2, -1), (2, 0), (3, 1), (4, 0), (3, -1)] + ([(4, 2), (2, 2), (5, 1)] if tier != "quick" else [(3, 2)])
@@ -150,7 +160,7 @@ def run_num(pid, kernel, kname, tier, seed, extra=None, extra_props=()):
                 where = ""
                 if "place" in s:
                     dyadic = (s["box"] == (0.5, 0.5, 0.5, 1.0))
-                    where = ":" + {1: "polar-axis", 8: "cell-centre"}.get(s["place"], "face-edge-axis" + ("" if dyadic else "-nondyadic"))
+                    where = ":" + {1: "polar-axis", 8: "cell-centre", 64: "sparse"}.get(s["place"], "face-edge-axis" + ("" if dyadic else "-nondyadic"))
                 if line.startswith("ABORT"):
                     rep.violation(dict(kind="abort", clause="num" + where, has_input=True), "aborted on " + case + ": " + line, dict(case=case, impl=line)); continue
                 r = parse(line)
@@ -170,7 +180,12 @@ def run_num(pid, kernel, kname, tier, seed, extra=None, extra_props=()):
                     hb = BANDS_H[kernel][param]
                     hp, hf = hb.get(s["H"], tuple(2 * x for x in hb[6]))
                     lim_p, lim_f = min(lim_p, hp), min(lim_f, hf)
-                if "place" in s and s["H"] > 2:
+                if s.get("place") == 64:
+                    if real != "double" or param not in BANDS_SPARSE[kernel]:
+                        results[(param, real, cmdline(s))] = (ep, ef)
+                        continue
+                    lim_p, lim_f = BANDS_SPARSE[kernel][param]
+                elif "place" in s and s["H"] > 2:
                     # particles on cell faces / edges sit at the worst-case geometry of the expansions (|x - centre| maximal):
                     # the bands, calibrated on random positions, are widened by 4 for these scenarios
                     lim_p, lim_f = 4 * lim_p, 4 * lim_f
@@ -201,6 +216,7 @@ def run_num(pid, kernel, kname, tier, seed, extra=None, extra_props=()):
         for (real, c), lst in byreal.items():
             lst.sort()
             if int(c.split()[1]) < 3 or real == "float": continue
+            if c.split()[0] == "num" and len(c.split()) > 12 and c.split()[12] == "64": continue     # sparse scenario: not truncation-dominated
             for (p1, e1), (p2, e2) in zip(lst, lst[1:]):
                 # "shrinks as the order grows" is a statement about the truncation error: below 1e-7 (double) the differences
                 # between consecutive orders are within the noise of the interpolation-node conditioning / summation order
